@@ -13,6 +13,9 @@ type Script struct {
 	Chunks      []int  `json:"chunks"`      // sizes of the successive non-empty reads (a smaller buffer gets a part); bytes beyond the sum come in reads as large as the buffer
 	EOFWithData bool   `json:"eofWithData"` // the read that delivers the last byte also returns io.EOF
 	ZeroBefore  []int  `json:"zeroBefore"`  // byte offsets at which one (0, nil) read is returned before data continues
+	ChunkSize   int    `json:"chunkSize"`   // size of the reads after Chunks is used up (0: as large as the buffer)
+	ZeroEach    int    `json:"zeroEach"`    // that many (0, nil) reads before EVERY chunk (zero-length reads spread over the whole stream)
+	HoldOpen    bool   `json:"holdOpen"`    // the source does not end on its own: after its last byte Read blocks until Release is called
 	ErrAt       int    `json:"errAt"`       // -1: never; else the source fails once ErrAt bytes were handed out
 	ErrWithData bool   `json:"errWithData"` // the read that delivers the bytes up to ErrAt returns them together with the error (needs ErrAt > 0)
 	ErrKind     string `json:"errKind"`     // "", "plain", "unexpected-eof", "wrapped-unexpected-eof"
@@ -33,6 +36,8 @@ type Reader struct {
 	ci      int // current chunk index
 	cleft   int // bytes left in the current chunk
 	zeroed  map[int]bool
+	zrun    int           // zero-length reads already returned before the current chunk
+	release chan struct{} // closed by Release
 	eof     bool
 	failed  bool
 	errSeen bool
@@ -55,7 +60,16 @@ func ErrFor(kind string) error {
 }
 
 func New(data []byte, s Script, onRead func(k, n int, err error)) *Reader {
-	return &Reader{Data: data, S: s, OnRead: onRead, Err: ErrFor(s.ErrKind), zeroed: map[int]bool{}}
+	return &Reader{Data: data, S: s, OnRead: onRead, Err: ErrFor(s.ErrKind), zeroed: map[int]bool{}, release: make(chan struct{})}
+}
+
+// Release lets a HoldOpen source end (its pending and later reads return io.EOF).
+func (r *Reader) Release() {
+	select {
+	case <-r.release:
+	default:
+		close(r.release)
+	}
 }
 
 // ErrSeen reports whether the source returned its non-EOF error at least once.
@@ -90,6 +104,9 @@ func (r *Reader) Read(p []byte) (n int, err error) {
 		return 0, r.Err
 	}
 	if r.pos >= len(r.Data) {
+		if r.S.HoldOpen {
+			<-r.release
+		}
 		r.eof = true
 		return 0, io.EOF
 	}
@@ -99,12 +116,20 @@ func (r *Reader) Read(p []byte) (n int, err error) {
 			return 0, nil
 		}
 	}
+	if r.cleft == 0 && r.zrun < r.S.ZeroEach {
+		r.zrun++
+		return 0, nil
+	}
 	if r.cleft == 0 {
+		r.zrun = 0
 		if r.ci < len(r.S.Chunks) {
 			r.cleft = r.S.Chunks[r.ci]
 			r.ci++
 		} else {
 			r.cleft = len(p)
+			if r.S.ChunkSize > 0 {
+				r.cleft = r.S.ChunkSize
+			}
 		}
 	}
 	n = r.cleft
@@ -124,7 +149,7 @@ func (r *Reader) Read(p []byte) (n int, err error) {
 		r.failed = true
 		return n, r.Err
 	}
-	if r.pos == len(r.Data) && r.S.EOFWithData && !(r.S.ErrAt >= 0 && r.S.ErrAt <= len(r.Data)) {
+	if r.pos == len(r.Data) && r.S.EOFWithData && !r.S.HoldOpen && !(r.S.ErrAt >= 0 && r.S.ErrAt <= len(r.Data)) {
 		r.eof = true
 		return n, io.EOF
 	}
